@@ -3,7 +3,7 @@
 passing tests with /root/.vp/BASELINE.json (stable_pass). Exit 0 iff every
 stable_pass test passes."""
 import json, os, subprocess, sys, xml.etree.ElementTree as ET
-REPO = "/repo"
+REPO = sys.argv[1] if len(sys.argv) > 1 else "/repo"
 here = os.path.dirname(os.path.abspath(__file__))
 env = dict(os.environ)
 env.pop("RUSTFLAGS", None)
